@@ -9,12 +9,12 @@ open BV.C10 BV.C10.Spec
 /-- what admission established for one transaction, evaluated against the chain view `c` -/
 def Local (c : Chain) (t : TxAbs) : Prop :=
   t.ins.Nodup ∧ t.sane = true ∧ t.coinbase = false ∧ t.valuesOk = true ∧ t.scriptsOk = true ∧
-  isFinal t (c.height + 1) c.mtp = true ∧ (∀ x ∈ t.ins, immature c x = false)
+  seqLocksOk c t = true ∧ isFinal t (c.height + 1) c.mtp = true ∧ (∀ x ∈ t.ins, immature c x = false)
 
 theorem local_of_accept {pol : Policy} {c : Chain} {s : Pool} {t : TxAbs} {isNew rl rdo : Bool} {cs : List TxAbs}
     (h : checkAccept pol c s t isNew rl rdo = .ok cs) : Local c t := by
   have f := checkAccept_ok_inv h
-  exact ⟨f.nodup, f.sane, f.notCb, f.values, f.scripts, f.final, f.mature⟩
+  exact ⟨f.nodup, f.sane, f.notCb, f.values, f.scripts, f.seqLock, f.final, f.mature⟩
 
 /-- finality is monotone in height and time -/
 theorem isFinal_mono {t : TxAbs} {h h' m m' : Nat} (hh : h ≤ h') (hm : m ≤ m') (hf : isFinal t h m = true) :
@@ -49,8 +49,8 @@ theorem validSeq_sorted {c : Chain} {s : Pool} (nds : NoDoubleSpend s) (rk : Poo
   | t :: rest, pre, hmem, hs, hlt => by
     have ht : t ∈ s.txs := (hmem t).2 (Or.inr (by simp))
     obtain ⟨hs1, hs2⟩ := List.pairwise_cons.1 hs
-    obtain ⟨l1, l2, l3, l4, l5, l7, l8⟩ := loc t ht
-    refine ⟨⟨l1, l2, l3, l4, l5, l7, l8, ?_⟩, ?_⟩
+    obtain ⟨l1, l2, l3, l4, l5, l6, l7, l8⟩ := loc t ht
+    refine ⟨⟨l1, l2, l3, l4, l5, l6, l7, l8, ?_⟩, ?_⟩
     · intro x hx
       constructor
       · rcases av t ht x hx with h | ⟨p, hp, ho⟩
